@@ -308,6 +308,34 @@ int main(void)
 		ntk = 0;
 		for (char *p = strtok(line, " "); p && ntk < (1 << 18); p = strtok(NULL, " ")) toks[ntk++] = p;
 		if (ntk == 0) { puts("bad-op"); continue; }
+		if (!strcmp(toks[0], "p.wire") && ntk >= 2) {
+			/* p.wire HEX : read every task of the text and write them out the way echsq puts them on the wire
+			 * (echs_task_icalify per task inside one PUBLISH calendar); prints the hex of that text */
+			static char txt[1 << 20];
+			static char back[1 << 20];
+			size_t len = 0;
+			for (char *h = toks[1]; h[0] && h[1] && len + 1 < sizeof(txt); h += 2) { unsigned v; sscanf(h, "%2x", &v); txt[len++] = (char)v; }
+			txt[len] = 0;
+			echs_task_t t[64];
+			size_t nt = parse_tasks(txt, len, t, 64);
+			char tmpl[] = "/tmp/hx_wr_XXXXXX";
+			int fd = mkstemp(tmpl);
+			if (fd < 0) { puts("<mkstemp>"); continue; }
+			unlink(tmpl);
+			static const char hdr[] = "BEGIN:VCALENDAR\nVERSION:2.0\nMETHOD:PUBLISH\n";
+			static const char ftr[] = "END:VCALENDAR\n";
+			if (write(fd, hdr, sizeof(hdr) - 1) < 0) { }
+			for (size_t i = 0; i < nt; i++) { echs_task_icalify(fd, t[i]); fdbang(fd); fdflush(); }
+			if (write(fd, ftr, sizeof(ftr) - 1) < 0) { }
+			off_t z = lseek(fd, 0, SEEK_CUR);
+			lseek(fd, 0, SEEK_SET);
+			ssize_t nb = read(fd, back, z < (off_t)sizeof(back) ? (size_t)z : sizeof(back) - 1);
+			close(fd);
+			for (ssize_t i = 0; i < nb; i++) printf("%02x", (unsigned char)back[i]);
+			printf(" %zu\n", nt);
+			for (size_t i = 0; i < nt; i++) free_echs_task(t[i]);
+			continue;
+		}
 		if (!strcmp(toks[0], "p.rt") && ntk >= 4) {
 			do_roundtrip(toks[1], atoi(toks[2]), atoi(toks[3]));
 			continue;
@@ -329,6 +357,28 @@ int main(void)
 			txt[len] = 0;
 			struct rrulsp_s r = echs_read_rrul(txt, len);
 			print_rule(&r);
+			putchar('\n');
+		} else if (!strcmp(toks[0], "r.print") && ntk >= 2) {
+			/* r.print RULE-TOKENS [| ccnt=N exc=0/1] : the text send_rrul() writes for the rule (hex) */
+			int bar = 1; while (bar < ntk && strcmp(toks[bar], "|")) bar++;
+			struct rrulsp_s r = read_rule(toks + 1, bar - 1);
+			size_t ccnt = 0; int exc = 0;
+			for (int i = bar + 1; i < ntk; i++) {
+				if (!strncmp(toks[i], "ccnt=", 5)) ccnt = strtoul(toks[i] + 5, NULL, 10);
+				else if (!strncmp(toks[i], "exc=", 4)) exc = atoi(toks[i] + 4);
+			}
+			char tmpl[] = "/tmp/hx_pr_XXXXXX";
+			int fd = mkstemp(tmpl);
+			if (fd < 0) { puts("<mkstemp>"); continue; }
+			unlink(tmpl);
+			send_rrul(fd, &r, ccnt, exc);
+			fdbang(fd); fdflush();
+			off_t z = lseek(fd, 0, SEEK_CUR);
+			static char back[1 << 16];
+			lseek(fd, 0, SEEK_SET);
+			ssize_t nb = read(fd, back, z < (off_t)sizeof(back) ? (size_t)z : sizeof(back) - 1);
+			close(fd);
+			for (ssize_t i = 0; i < nb; i++) printf("%02x", (unsigned char)back[i]);
 			putchar('\n');
 		} else if (!strcmp(toks[0], "r.fill") && ntk >= 3) {
 			/* r.fill RULE-TOKENS | proto=HEX nti=N : one call of the filler on a cache pre-filled with proto */
